@@ -130,6 +130,37 @@ pub fn check_outcomes(w: &WorldInner, a: &Analysis, run: &RunResult, tcfg: &Trac
             }
         }
         let expected = expected_for_round(w, tcfg, &rt.groups, &rt.reads);
+        // TCP: a connection attempt that resolved (SYN-ACK / RST at the host) well inside the
+        // connect timeout and well before the round was published must have been noticed - the
+        // tracer polls its pending sockets once per loop iteration, i.e. at least once per read
+        // timeout.  (Ground truth from the simulated kernel, independent of whether the tracer
+        // polled.)
+        if tcfg.protocol == Protocol::Tcp {
+            let rt_ns = crate::sim::ns(tcfg.read_timeout).max(1_000_000);
+            for ((&slot, g), exp) in slots.iter().zip(&rt.groups).zip(&expected) {
+                let (Some(wid), Expected::Awaited) = (g.wire, exp) else { continue };
+                let Some((at, kind)) = w.tcp_outcome_of_wire(wid) else { continue };
+                let sent = w.wires[wid].t;
+                let in_time = at.saturating_sub(sent) + 2 * rt_ns < crate::sim::ns(tcfg.tcp_connect_timeout);
+                let before_publish = at + 3 * rt_ns < round.t_publish;
+                if in_time && before_publish {
+                    o.hit("tcp_outcome_inside_connect_timeout_is_reported");
+                    if matches!(round.probes[slot], ProbeStatus::Awaited(_)) {
+                        o.violate(
+                            "tcp_outcome_inside_connect_timeout_is_reported",
+                            site,
+                            format!(
+                                "round {ri} slot {slot}: the connection attempt resolved ({kind:?}) {}ns after the SYN (connect timeout {:?}) and {}ns before the round was published, but the probe is reported as awaited",
+                                at - sent,
+                                tcfg.tcp_connect_timeout,
+                                round.t_publish - at
+                            ),
+                            replay.clone(),
+                        );
+                    }
+                }
+            }
+        }
         let mut first_seq: Option<(usize, u16)> = None;
         for ((&slot, g), exp) in slots.iter().zip(&rt.groups).zip(&expected) {
             let st = &round.probes[slot];
